@@ -8,6 +8,7 @@ THEOREMS = [
     "Lou.C06Pass.fwdTest_bounds", "Lou.C06Pass.select_first", "Lou.C06Pass.select_best", "Lou.C06Pass.fwdAction_ok",
     "Lou.C06Pass.fwdAction_replaces_brackets", "Lou.C06Pass.fwdStage_contract", "Lou.C06Pass.fwdStage_total",
             "Lou.C06Pass.backTest_bounds", "Lou.C06Pass.backStage_contract", "Lou.C06Pass.backStage_total", "Lou.C06Pass.backAction_replaces_brackets",
+            "Lou.ModelEngine.callFwd_eq", "Lou.ModelEngine.callBack_eq",
 ]
 
 CLAIM = dict(
